@@ -64,6 +64,14 @@ def run(repo: Repo, chk: Check, thorough: bool = False) -> None:
         any(call_name(c) == 'mro' for c in calls_in(ie))
     chk.ob('R03.1', 'model.is_exception :: consults the table along the MRO', ok, 'for base in cls.mro(True, False): base in _STD_LIB_EXCEPTIONS' if ok else
            'is_exception no longer walks the MRO / the table', ie.loc)
+    # the names in the table are bare (`ValueError`): a base written with its module - `class E(builtins.Exception)` expands to `builtins.Exception` -
+    # names the same class, so the qualifier has to be taken off (or the table has to list the qualified spelling too) before the lookup
+    qualified = any(isinstance(x, ast.Constant) and isinstance(x.value, str) and x.value.startswith('builtins') for x in ie.walk()) or \
+        any(str(n_).startswith('builtins.') for n_ in names)
+    chk.ob('R03.1', 'model.is_exception :: a base spelled builtins.<Name> is the builtin exception', qualified,
+           'the `builtins.` qualifier is handled' if qualified else
+           '`class E(builtins.Exception)` is documented as a plain class: the expanded base name `builtins.Exception` is compared with the bare names of the table',
+           ie.loc)
     chk.require('R03.1', 60)
 
     # ------------------------------------------------------------------ R03.2
@@ -204,6 +212,54 @@ def run(repo: Repo, chk: Check, thorough: bool = False) -> None:
     chk.ob('R03.5', 'astutils.is__name__equals__main__ :: single equality comparison', eq and one,
            'exactly one operator, and it is ast.Eq' if eq and one else
            'the guard test no longer requires `==`: `if __name__ != "__main__":` blocks (which do run on import) would be skipped', im.loc)
+    # `'__main__' == __name__` is the same guard: its body is not executed on import either, so both operand orders have to be recognised - the
+    # function looks for the name `__name__` on BOTH sides of the comparison (directly, or by trying the two orders in a loop)
+    cmpp = im.params()[0].arg
+    sides: Set[str] = set()
+    for n in im.walk():
+        if isinstance(n, ast.Compare) and any(isinstance(x, ast.Constant) and x.value == '__name__' for x in ast.walk(n)):
+            for x in ast.walk(n):
+                if isinstance(x, ast.Attribute) and x.attr == 'id':
+                    tgt = norm(x.value)
+                    if tgt.startswith(cmpp + '.'):
+                        sides.add(tgt)
+                    elif isinstance(x.value, ast.Name):
+                        # a local bound by (tuple) assignment - `left, right = cmp.left, cmp.comparators[0]`, `left, right = right, left`
+                        def _origins(nm: str, depth: int = 0) -> Set[str]:
+                            out_: Set[str] = set()
+                            if depth > 3:
+                                return out_
+                            for a_ in im.walk():
+                                if not isinstance(a_, ast.Assign):
+                                    continue
+                                for t_ in a_.targets:
+                                    if isinstance(t_, ast.Name) and t_.id == nm:
+                                        vals_ = [a_.value]
+                                    elif isinstance(t_, (ast.Tuple, ast.List)) and isinstance(a_.value, (ast.Tuple, ast.List)) and len(t_.elts) == len(a_.value.elts):
+                                        vals_ = [v_ for e_, v_ in zip(t_.elts, a_.value.elts) if isinstance(e_, ast.Name) and e_.id == nm]
+                                    else:
+                                        vals_ = []
+                                    for v_ in vals_:
+                                        if isinstance(v_, ast.Name):
+                                            out_ |= _origins(v_.id, depth + 1)
+                                        else:
+                                            out_.add(norm(v_))
+                            return out_
+                        sides |= {o_ for o_ in _origins(x.value.id) if o_.startswith(cmpp + '.')}
+                        # a loop / unpacking variable: which operand expressions can it be?
+                        for lp in im.walk():
+                            if isinstance(lp, (ast.For, ast.comprehension)) and any(isinstance(t, ast.Name) and t.id == x.value.id for t in ast.walk(lp.target)):
+                                tg_names = [t for t in ast.walk(lp.target) if isinstance(t, ast.Name)]
+                                pos_ = [t.id for t in tg_names].index(x.value.id) if isinstance(lp.target, (ast.Tuple, ast.List)) else None
+                                for el in (lp.iter.elts if isinstance(lp.iter, (ast.Tuple, ast.List)) else []):
+                                    if pos_ is not None and isinstance(el, (ast.Tuple, ast.List)) and pos_ < len(el.elts):
+                                        sides.add(norm(el.elts[pos_]))
+                                    elif pos_ is None:
+                                        sides.add(norm(el))
+    both = f'{cmpp}.left' in sides and any(s_.startswith(f'{cmpp}.comparators') for s_ in sides)
+    chk.ob('R03.5', 'astutils.is__name__equals__main__ :: both operand orders are the guard', both,
+           f'`__name__` is looked for in {sorted(sides)}' if both else
+           f'`__name__` is only looked for in {sorted(sides)}: the body of `if \'__main__\' == __name__:` is documented although importing the module never binds it', im.loc)
     vi = repo.func(f'{MV}.visit_If')
     ok = any(isinstance(n, ast.Raise) and 'SkipNode' in norm(n) and any(isinstance(p, ast.If) and 'is__name__equals__main__' in norm(p.test) for p in parents(n))
              for n in vi.walk())
